@@ -7,6 +7,7 @@
 #include "vf_exec.hpp"
 
 #include <yaclib/async/contract.hpp>
+#include <yaclib/async/run.hpp>
 #include <yaclib/async/shared_contract.hpp>
 #include <yaclib/async/wait.hpp>
 #include <yaclib/coro/await.hpp>
@@ -829,6 +830,84 @@ void AwaitTaskCase(Ctx& ctx) {
   }
 }
 
+
+// A Task coroutine returned from a plain continuation is started by that step: it runs lazily (only then), exactly
+// once, and with the step's executor as its own (CurrentExecutor(), Yield() re-submits there).
+void ReturnedTaskCase(Ctx& ctx) {
+  ResetTags();
+  int via = static_cast<int>(ctx.rng.Below(3));  // 0 Run(e2).Then(e1, step)  1 Schedule(e2).Then(e1, step).ToFuture()  2 ...Detach-free Get on a Task
+  bool yield_inside = ctx.rng.Coin();
+  bool fails = ctx.rng.Below(4) == 0;
+  int code = static_cast<int>(ctx.rng.In(1, 1000));
+  ctx.Note("Task coroutine returned from a Then(e1, step) of %s%s%s ", via == 0 ? "an eager pipeline" : via == 1 ? "a lazy pipeline (ToFuture)" : "a lazy pipeline (Get)",
+           yield_inside ? ", yields inside" : "", fails ? " (fails)" : "");
+  auto pool = yaclib::MakeFairThreadPool(1);
+  auto pool2 = yaclib::MakeFairThreadPool(1);
+  TagExec e1{1, *pool};
+  TagExec e2{2, *pool2};
+  std::atomic<int> started{0}, bad_exec{0}, bad_tag{0}, built{0};
+  auto inner = [&](int c) -> yaclib::Task<Tracked, MyError> {
+    started.fetch_add(1, kRlx);
+    if (&co_await yaclib::CurrentExecutor() != static_cast<yaclib::IExecutor*>(&e1)) {
+      bad_exec.fetch_add(1, kRlx);
+    }
+    if (CurTag() != 1) {
+      bad_tag.fetch_add(1, kRlx);
+    }
+    if (yield_inside) {
+      auto& again = co_await yaclib::Yield();
+      if (&again != static_cast<yaclib::IExecutor*>(&e1)) {
+        bad_exec.fetch_add(1, kRlx);
+      }
+      if (CurTag() != 1) {
+        bad_tag.fetch_add(1, kRlx);
+      }
+    }
+    if (fails) {
+      co_return MyError{c};
+    }
+    co_return Tracked{c + 1};
+  };
+  auto head = [code]() -> R {
+    return Tracked{code};
+  };
+  auto step = [&](Tracked v) -> yaclib::Task<Tracked, MyError> {
+    built.fetch_add(1, kRlx);
+    return inner(v.v);
+  };
+  {
+    R r = [&]() -> R {
+      if (via == 0) {
+        return yaclib::Run<MyError>(e2, head).Then(e1, step).Get();
+      }
+      if (via == 1) {
+        return yaclib::Schedule<MyError>(e2, head).Then(e1, step).ToFuture().Get();
+      }
+      return yaclib::Schedule<MyError>(e2, head).Then(e1, step).Get();
+    }();
+    if (fails) {
+      ctx.Check(r.State() == yaclib::ResultState::Error && std::as_const(r).Error().code == code, "coroutine-result", "C12,C13",
+                "a failing Task coroutine returned from a step gave state %d", (int)r.State());
+    } else {
+      ctx.Check(r.State() == yaclib::ResultState::Value && std::as_const(r).Value().v == code + 1 && std::as_const(r).Value().Fresh(),
+                "coroutine-result", "C12,C13", "a Task coroutine returned from a step gave state %d, expected value %d",
+                (int)r.State(), code + 1);
+    }
+  }
+  pool->Stop();
+  pool->Wait();
+  pool2->Stop();
+  pool2->Wait();
+  ctx.SetNontrivial(true);
+  ctx.Observe(static_cast<u64>(via * 4 + (yield_inside ? 2 : 0) + (fails ? 1 : 0)));
+  ctx.Check(started.load(kRlx) == 1 && built.load(kRlx) == 1, "lazy-started-by-step", "C12,C13",
+            "the returned Task coroutine started %d times (step ran %d times)", started.load(kRlx), built.load(kRlx));
+  ctx.Check(bad_exec.load(kRlx) == 0, "task-inherits-executor", "C12,C13",
+            "a Task coroutine returned from Then(e1, step) did not have e1 as CurrentExecutor()/Yield() executor (%d times)",
+            bad_exec.load(kRlx));
+  ctx.Check(bad_tag.load(kRlx) == 0, "ran-on-executor", "C12,C13,C05",
+            "a Task coroutine returned from Then(e1, step) ran a part of its body outside e1 (%d times)", bad_tag.load(kRlx));
+}
 }  // namespace
 
 VF_CELL(co_future, "future-coroutine/live", "C13,C03,C04,C06", 30) {
@@ -848,6 +927,9 @@ VF_CELL(co_task_stopped, "task-coroutine/stopped-target", "C13,C03,C05", 6) {
 }
 VF_CELL(co_shared_stopped, "shared-future-coroutine/stopped-target", "C13,C03,C05", 6) {
   CoroCase(ctx, cShared, true);
+}
+VF_CELL(co_returned_task, "task-coroutine/returned-from-step", "C13,C12,C03,C05", 6) {
+  ReturnedTaskCase(ctx);
 }
 VF_CELL(co_await_task, "await-lazy-task", "C13,C12,C03,C05", 12) {
   AwaitTaskCase(ctx);
